@@ -19,7 +19,7 @@ package builder
 
 //@ func UseUnderlyingTypeMethods.Matches
 //@   props C03 C06
-//@   requires CtxOK(ctx) && source != nil && target != nil
+//@   requires@C13 CtxOK(ctx) && source != nil && target != nil
 //@   assigns nothing
 //@   ensures result ==> ctx.Conf.UseUnderlyingTypeMethods
 //@   ensures result ==> (source.Named || target.Named)
@@ -27,12 +27,12 @@ package builder
 //@ func SkipCopy.Matches
 //@   props C03 C04
 //@   pure
-//@   requires CtxOK(ctx) && source != nil && target != nil
+//@   requires@C13 CtxOK(ctx) && source != nil && target != nil
 //@   ensures result == MatchesSkipCopy(ctx, source, target)
 
 //@ func Enum.Matches
 //@   props C03 C08
-//@   requires CtxOK(ctx) && source != nil && target != nil
+//@   requires@C13 CtxOK(ctx) && source != nil && target != nil
 //@   assigns source.enum, target.enum
 //@   ensures result ==> ctx.Conf.Enum.Enabled
 //@   ensures result ==> source.Named && target.Named
@@ -40,49 +40,49 @@ package builder
 //@ func BasicTargetPointerRule.Matches
 //@   props C03 C11
 //@   pure
-//@   requires source != nil && target != nil
+//@   requires@C13 source != nil && target != nil
 //@   ensures result == MatchesBasicTargetPointer(source, target)
 
 //@ func Pointer.Matches
 //@   props C03 C11
 //@   pure
-//@   requires source != nil && target != nil
+//@   requires@C13 source != nil && target != nil
 //@   ensures result == MatchesPointer(source, target)
 
 //@ func SourcePointer.Matches
 //@   props C03 C11
 //@   pure
-//@   requires CtxOK(ctx) && source != nil && target != nil
+//@   requires@C13 CtxOK(ctx) && source != nil && target != nil
 //@   ensures result == MatchesSourcePointer(ctx, source, target)
 
 //@ func TargetPointer.Matches
 //@   props C03 C11
 //@   pure
-//@   requires source != nil && target != nil
+//@   requires@C13 source != nil && target != nil
 //@   ensures result == MatchesTargetPointer(source, target)
 
 //@ func Basic.Matches
 //@   props C03 C11
 //@   pure
-//@   requires source != nil && target != nil
+//@   requires@C13 source != nil && target != nil
 //@   ensures result == MatchesBasic(source, target)
 
 //@ func Struct.Matches
 //@   props C03
 //@   pure
-//@   requires source != nil && target != nil
+//@   requires@C13 source != nil && target != nil
 //@   ensures result == MatchesStruct(source, target)
 
 //@ func List.Matches
 //@   props C03
 //@   pure
-//@   requires source != nil && target != nil
+//@   requires@C13 source != nil && target != nil
 //@   ensures result == MatchesList(source, target)
 
 //@ func Map.Matches
 //@   props C03
 //@   pure
-//@   requires source != nil && target != nil
+//@   requires@C13 source != nil && target != nil
 //@   ensures result == MatchesMap(source, target)
 
 // ---- upper bounds of the two state-dependent rules, and "no rule can match" ----
@@ -148,7 +148,7 @@ package builder
 
 //@ func findUnderlyingExtendMapping
 //@   props C06
-//@   requires CtxOK(ctx) && source != nil && target != nil
+//@   requires@C13 CtxOK(ctx) && source != nil && target != nil
 //@   assigns nothing
 //@   ensures (underlyingSource || underlyingTarget) ==> (source.Named || target.Named)
 //@   ensures underlyingSource ==> source.Named
@@ -156,7 +156,7 @@ package builder
 
 //@ func isEnum
 //@   props C08
-//@   requires CtxOK(ctx) && source != nil && target != nil
+//@   requires@C13 CtxOK(ctx) && source != nil && target != nil
 //@   assigns source.enum, target.enum
 //@   ensures result ==> ctx.Conf.Enum.Enabled && source.Named && target.Named
 
@@ -166,7 +166,7 @@ package builder
 //@ func shouldCheckAgainstZero
 //@   props C10
 //@   pure
-//@   requires MethodOK(ctx) && s != nil && t != nil
+//@   requires@C13 MethodOK(ctx) && s != nil && t != nil
 //@   ensures result == ((ctx.Conf.UpdateTarget || isUpdate) &&
 //@        ((s.Struct && ctx.Conf.IgnoreStructZeroValueField)
 //@      || (s.Basic && ctx.Conf.IgnoreBasicZeroValueField)
@@ -175,3 +175,362 @@ package builder
 //@             || ((call || (ctx.Conf.SkipCopySameType && types.Identical(s.T, t.T))) && ((s.List && !s.ListFixed) || s.Pointer))))))
 //@   ensures !(ctx.Conf.UpdateTarget || isUpdate) ==> !result
 //@   ensures result && s.List ==> !s.ListFixed
+
+// ---- C07: the error path ----
+// Field/Index/Key return the path extended by exactly one element at the end
+//@ func ErrorPath.Field
+//@   props C07
+//@   pure
+//@   ensures len(result) == len(e) + 1 && (forall j int :: 0 <= j && j < len(e) ==> result[j] == e[j])
+//@   ensures dynIs[errElmField](result[len(e)]) && string(unboxed[errElmField](result[len(e)])) == name
+
+//@ func ErrorPath.Index
+//@   props C07
+//@   pure
+//@   ensures len(result) == len(e) + 1 && (forall j int :: 0 <= j && j < len(e) ==> result[j] == e[j])
+//@   ensures dynIs[errElmIndex](result[len(e)]) && unboxed[errElmIndex](result[len(e)]).stmt == code
+
+//@ func ErrorPath.Key
+//@   props C07
+//@   pure
+//@   ensures len(result) == len(e) + 1 && (forall j int :: 0 <= j && j < len(e) ==> result[j] == e[j])
+//@   ensures dynIs[errElmKey](result[len(e)]) && unboxed[errElmKey](result[len(e)]).stmt == code
+
+// the Wrap argument for one path element
+//@ pred ElemArg(pkg string, elm ErrorElement) jen.Code =
+//@     ite(dynIs[errElmField](elm), jen.Code(jen.Qual(pkg, "Field").Call(jen.Lit(string(unboxed[errElmField](elm))))),
+//@     ite(dynIs[errElmIndex](elm), jen.Code(jen.Qual(pkg, "Index").Call(unboxed[errElmIndex](elm).stmt.Clone())),
+//@                                  jen.Code(jen.Qual(pkg, "Key").Call(unboxed[errElmKey](elm).stmt.Clone()))))
+
+//@ pred PathElem(elm ErrorElement) bool = elm != nil && (dynIs[errElmField](elm) || dynIs[errElmIndex](elm) || dynIs[errElmKey](elm))
+//@     && (dynIs[errElmIndex](elm) ==> unboxed[errElmIndex](elm).stmt != nil) && (dynIs[errElmKey](elm) ==> unboxed[errElmKey](elm).stmt != nil)
+
+// wrapErrorsUsing: Wrap(err, arg_0 ... arg_n-1), one argument per path element, in order, outermost first
+//@ func ErrorPath.WrapErrorsUsing
+//@   props C07 C18
+//@   pure
+//@   requires@C13 forall j int :: 0 <= j && j < len(e) ==> PathElem(e[j])
+//@   ensures result != nil
+//@   loop 1 invariant len(args) == idx && (forall j int :: 0 <= j && j < idx ==> args[j] == ElemArg(pkg, e[j]))
+//@   at call Call#4 assert len(arg0) == len(e) + 1 && arg0[0] == jen.Code(errStmt) && (forall j int :: 0 <= j && j < len(e) ==> arg0[j+1] == ElemArg(pkg, e[j]))
+
+// wrapErrors: only the innermost element (field name or index); a map key yields the bare error
+//@ func ErrorPath.WrapErrors
+//@   props C07 C18
+//@   pure
+//@   requires@C13 forall j int :: 0 <= j && j < len(e) ==> PathElem(e[j])
+//@   ensures len(e) == 0 ==> result == errStmt
+//@   ensures len(e) > 0 && dynIs[errElmKey](e[len(e)-1]) ==> result == errStmt
+//@   ensures len(e) > 0 && dynIs[errElmField](e[len(e)-1]) ==> result == jen.Qual("fmt", "Errorf").Call(jen.Lit("error setting field " + string(unboxed[errElmField](e[len(e)-1])) + ": %w"), errStmt)
+//@   ensures len(e) > 0 && dynIs[errElmIndex](e[len(e)-1]) ==> result == jen.Qual("fmt", "Errorf").Call(jen.Lit("error setting index %d: %w"), unboxed[errElmIndex](e[len(e)-1]).stmt.Clone(), errStmt)
+
+// ---- C03 "failure is never swallowed" (propagates) and success results of every rule ----
+//@ pred CallOK(ctx *MethodContext, sourceID *xtype.JenID, source *xtype.Type, target *xtype.Type) bool =
+//@     MethodOK(ctx) && ctx.Namer != nil && sourceID != nil && sourceID.Code != nil && source != nil && target != nil
+//@ pred AssignOK(a *AssignTo) bool = a != nil && a.Stmt != nil
+
+// The generator's representation invariant and its link to the current method context are abstract here
+// (builders cannot see the generator); package generator reveals their definitions. They depend only on
+// the heap locations listed, so nothing a builder writes can invalidate them.
+//@ abstract GenInv(gen Generator) bool reads F:generator.generator.lookup F:generator.generator.extend F:generator.generator.conf F:generator.generator.namer
+//@   reads F:method.Index.Exact F:method.Index.Update MD:S_xtype.Signature MV:S_xtype.Signature|Sl_S_method.IndexEntry F:generator.generatedMethod.Method F:config.Method.Definition
+//@ abstract GenCtx(gen Generator, ctx *MethodContext) bool reads F:generator.generator.lookup F:method.Index.Exact F:method.Index.Update MD:S_xtype.Signature MV:S_xtype.Signature|Sl_S_method.IndexEntry
+//@   reads F:builder.MethodContext.IndexID F:generator.generatedMethod.OriginPath
+
+// interface contracts (what a builder may rely on when it recurses through the generator)
+//@ func Generator.Build
+//@   props C03 C06
+//@   requires@C13 GenInv(this) && GenCtx(this, ctx) && CallOK(ctx, sourceID, source, target)
+//@   ensures@C13 GenInv(this) && GenCtx(this, ctx)
+//@   ensures err == nil ==> result1 != nil && result1.Code != nil
+//@ func Generator.Assign
+//@   props C03 C06
+//@   requires@C13 GenInv(this) && GenCtx(this, ctx) && CallOK(ctx, sourceID, source, target) && AssignOK(assignTo)
+//@   ensures@C13 GenInv(this) && GenCtx(this, ctx)
+//@ func Generator.CallMethod
+//@   props C03 C06 C07
+//@   requires@C13 GenInv(this) && GenCtx(this, ctx) && MethodOK(ctx) && ctx.Namer != nil && method != nil && target != nil
+//@   ensures@C13 GenInv(this) && GenCtx(this, ctx)
+//@   ensures err == nil ==> result1 != nil && result1.Code != nil
+//@ func Generator.ReturnError
+//@   props C07
+//@   requires@C13 GenInv(this) && GenCtx(this, ctx) && MethodOK(ctx) && id != nil
+//@   ensures@C13 GenInv(this) && GenCtx(this, ctx)
+//@   ensures result1 ==> result0 != nil
+
+//@ func Builder.Build
+//@   props C03
+//@   requires@C13 gen != nil && GenInv(gen) && GenCtx(gen, ctx) && CallOK(ctx, sourceID, source, target)
+//@   ensures@C13 GenInv(gen) && GenCtx(gen, ctx)
+//@   ensures err == nil ==> result1 != nil && result1.Code != nil
+//@ func Builder.Assign
+//@   props C03
+//@   requires@C13 gen != nil && GenInv(gen) && GenCtx(gen, ctx) && CallOK(ctx, sourceID, source, target) && AssignOK(assignTo)
+//@   ensures@C13 GenInv(gen) && GenCtx(gen, ctx)
+
+//@ func Error.Lift
+//@   props C03
+//@   inline
+
+//@ func AssignOf
+//@   props C03
+//@   ensures result != nil && isFresh(result) && result.Stmt == s && !result.Must && !result.Update
+//@ func AssignTo.WithIndex
+//@   props C03
+//@   requires@C13 AssignOK(a)
+//@   ensures result != nil && isFresh(result) && result.Stmt != nil
+//@ func AssignTo.MustAssign
+//@   props C03
+//@   inline
+//@ func AssignTo.IsUpdate
+//@   props C03
+//@   inline
+
+//@ func AssignByBuild
+//@   props C03
+//@   propagates
+//@   requires@C13 b != nil && gen != nil && GenInv(gen) && GenCtx(gen, ctx) && CallOK(ctx, sourceID, source, target) && AssignOK(assignTo)
+//@   ensures@C13 GenInv(gen) && GenCtx(gen, ctx)
+//@ func BuildByAssign
+//@   props C03
+//@   propagates
+//@   requires@C13 b != nil && gen != nil && GenInv(gen) && GenCtx(gen, ctx) && CallOK(ctx, sourceID, source, target)
+//@   ensures@C13 GenInv(gen) && GenCtx(gen, ctx)
+//@   ensures err == nil ==> result1 != nil && result1.Code != nil
+//@ func buildTargetVar
+//@   props C03 C11
+//@   propagates
+//@   requires@C13 gen != nil && GenInv(gen) && GenCtx(gen, ctx) && CallOK(ctx, sourceID, source, target)
+//@   ensures@C13 GenInv(gen) && GenCtx(gen, ctx)
+//@   ensures err == nil ==> result1 != nil
+
+//@ func UseUnderlyingTypeMethods.Build(gen, ctx, sourceID, source, target, errPath)
+//@   props C03
+//@   propagates
+//@   requires@C13 self != nil
+//@   requires@C13 GenInv(gen) && GenCtx(gen, ctx)
+//@   ensures@C13 GenInv(gen) && GenCtx(gen, ctx)
+//@   requires@C13 MayMatchUnderlying(ctx, source, target)
+//@   requires@C13 gen != nil && CallOK(ctx, sourceID, source, target)
+//@   ensures err == nil ==> result1 != nil && result1.Code != nil
+//@ func UseUnderlyingTypeMethods.Assign(gen, ctx, assignTo, sourceID, source, target, errPath)
+//@   props C03
+//@   propagates
+//@   requires@C13 self != nil
+//@   requires@C13 GenInv(gen) && GenCtx(gen, ctx)
+//@   ensures@C13 GenInv(gen) && GenCtx(gen, ctx)
+//@   requires@C13 MayMatchUnderlying(ctx, source, target)
+//@   requires@C13 gen != nil && CallOK(ctx, sourceID, source, target) && AssignOK(assignTo)
+
+//@ func SkipCopy.Build(gen, ctx, sourceID, source, target, errPath)
+//@   props C03
+//@   propagates
+//@   requires@C13 self != nil
+//@   requires@C13 GenInv(gen) && GenCtx(gen, ctx)
+//@   ensures@C13 GenInv(gen) && GenCtx(gen, ctx)
+//@   requires@C13 MatchesSkipCopy(ctx, source, target)
+//@   requires@C13 gen != nil && CallOK(ctx, sourceID, source, target)
+//@   ensures err == nil ==> result1 != nil && result1.Code != nil
+//@ func SkipCopy.Assign(gen, ctx, assignTo, sourceID, source, target, errPath)
+//@   props C03
+//@   propagates
+//@   requires@C13 self != nil
+//@   requires@C13 GenInv(gen) && GenCtx(gen, ctx)
+//@   ensures@C13 GenInv(gen) && GenCtx(gen, ctx)
+//@   requires@C13 MatchesSkipCopy(ctx, source, target)
+//@   requires@C13 gen != nil && CallOK(ctx, sourceID, source, target) && AssignOK(assignTo)
+
+//@ func Enum.Build(gen, ctx, sourceID, source, target, errPath)
+//@   props C03
+//@   propagates
+//@   requires@C13 self != nil
+//@   requires@C13 GenInv(gen) && GenCtx(gen, ctx)
+//@   ensures@C13 GenInv(gen) && GenCtx(gen, ctx)
+//@   requires@C13 MayMatchEnum(ctx, source, target)
+//@   requires@C13 gen != nil && CallOK(ctx, sourceID, source, target)
+//@   ensures err == nil ==> result1 != nil && result1.Code != nil
+//@ func Enum.Assign(gen, ctx, assignTo, sourceID, source, target, errPath)
+//@   props C03
+//@   propagates
+//@   requires@C13 self != nil
+//@   requires@C13 GenInv(gen) && GenCtx(gen, ctx)
+//@   ensures@C13 GenInv(gen) && GenCtx(gen, ctx)
+//@   requires@C13 MayMatchEnum(ctx, source, target)
+//@   requires@C13 gen != nil && CallOK(ctx, sourceID, source, target) && AssignOK(assignTo)
+
+//@ func BasicTargetPointerRule.Build(gen, ctx, sourceID, source, target, errPath)
+//@   props C03
+//@   propagates
+//@   requires@C13 self != nil
+//@   requires@C13 GenInv(gen) && GenCtx(gen, ctx)
+//@   ensures@C13 GenInv(gen) && GenCtx(gen, ctx)
+//@   requires@C13 MatchesBasicTargetPointer(source, target)
+//@   requires@C13 gen != nil && CallOK(ctx, sourceID, source, target)
+//@   ensures err == nil ==> result1 != nil && result1.Code != nil
+//@ func BasicTargetPointerRule.Assign(gen, ctx, assignTo, sourceID, source, target, errPath)
+//@   props C03
+//@   propagates
+//@   requires@C13 self != nil
+//@   requires@C13 GenInv(gen) && GenCtx(gen, ctx)
+//@   ensures@C13 GenInv(gen) && GenCtx(gen, ctx)
+//@   requires@C13 MatchesBasicTargetPointer(source, target)
+//@   requires@C13 gen != nil && CallOK(ctx, sourceID, source, target) && AssignOK(assignTo)
+
+//@ func Pointer.Build(gen, ctx, sourceID, source, target, errPath)
+//@   props C03
+//@   propagates
+//@   requires@C13 self != nil
+//@   requires@C13 GenInv(gen) && GenCtx(gen, ctx)
+//@   ensures@C13 GenInv(gen) && GenCtx(gen, ctx)
+//@   requires@C13 MatchesPointer(source, target)
+//@   requires@C13 gen != nil && CallOK(ctx, sourceID, source, target)
+//@   ensures err == nil ==> result1 != nil && result1.Code != nil
+//@ func Pointer.Assign(gen, ctx, assignTo, sourceID, source, target, errPath)
+//@   props C03
+//@   propagates
+//@   requires@C13 self != nil
+//@   requires@C13 GenInv(gen) && GenCtx(gen, ctx)
+//@   ensures@C13 GenInv(gen) && GenCtx(gen, ctx)
+//@   requires@C13 MatchesPointer(source, target)
+//@   requires@C13 gen != nil && CallOK(ctx, sourceID, source, target) && AssignOK(assignTo)
+
+//@ func SourcePointer.Build(gen, ctx, sourceID, source, target, errPath)
+//@   props C03
+//@   propagates
+//@   requires@C13 self != nil
+//@   requires@C13 GenInv(gen) && GenCtx(gen, ctx)
+//@   ensures@C13 GenInv(gen) && GenCtx(gen, ctx)
+//@   requires@C13 MatchesSourcePointer(ctx, source, target)
+//@   requires@C13 gen != nil && CallOK(ctx, sourceID, source, target)
+//@   ensures err == nil ==> result1 != nil && result1.Code != nil
+//@ func SourcePointer.Assign(gen, ctx, assignTo, sourceID, source, target, errPath)
+//@   props C03
+//@   propagates
+//@   requires@C13 self != nil
+//@   requires@C13 GenInv(gen) && GenCtx(gen, ctx)
+//@   ensures@C13 GenInv(gen) && GenCtx(gen, ctx)
+//@   requires@C13 MatchesSourcePointer(ctx, source, target)
+//@   requires@C13 gen != nil && CallOK(ctx, sourceID, source, target) && AssignOK(assignTo)
+
+//@ func TargetPointer.Build(gen, ctx, sourceID, source, target, errPath)
+//@   props C03
+//@   propagates
+//@   requires@C13 self != nil
+//@   requires@C13 GenInv(gen) && GenCtx(gen, ctx)
+//@   ensures@C13 GenInv(gen) && GenCtx(gen, ctx)
+//@   requires@C13 MatchesTargetPointer(source, target)
+//@   requires@C13 gen != nil && CallOK(ctx, sourceID, source, target)
+//@   ensures err == nil ==> result1 != nil && result1.Code != nil
+//@ func TargetPointer.Assign(gen, ctx, assignTo, sourceID, source, target, errPath)
+//@   props C03
+//@   propagates
+//@   requires@C13 self != nil
+//@   requires@C13 GenInv(gen) && GenCtx(gen, ctx)
+//@   ensures@C13 GenInv(gen) && GenCtx(gen, ctx)
+//@   requires@C13 MatchesTargetPointer(source, target)
+//@   requires@C13 gen != nil && CallOK(ctx, sourceID, source, target) && AssignOK(assignTo)
+
+//@ func Basic.Build(gen, ctx, sourceID, source, target, errPath)
+//@   props C03
+//@   propagates
+//@   requires@C13 self != nil
+//@   requires@C13 GenInv(gen) && GenCtx(gen, ctx)
+//@   ensures@C13 GenInv(gen) && GenCtx(gen, ctx)
+//@   requires@C13 MatchesBasic(source, target)
+//@   requires@C13 gen != nil && CallOK(ctx, sourceID, source, target)
+//@   ensures err == nil ==> result1 != nil && result1.Code != nil
+//@ func Basic.Assign(gen, ctx, assignTo, sourceID, source, target, errPath)
+//@   props C03
+//@   propagates
+//@   requires@C13 self != nil
+//@   requires@C13 GenInv(gen) && GenCtx(gen, ctx)
+//@   ensures@C13 GenInv(gen) && GenCtx(gen, ctx)
+//@   requires@C13 MatchesBasic(source, target)
+//@   requires@C13 gen != nil && CallOK(ctx, sourceID, source, target) && AssignOK(assignTo)
+
+//@ func Struct.Build(gen, ctx, sourceID, source, target, errPath)
+//@   props C03
+//@   propagates
+//@   requires@C13 self != nil
+//@   requires@C13 GenInv(gen) && GenCtx(gen, ctx)
+//@   ensures@C13 GenInv(gen) && GenCtx(gen, ctx)
+//@   requires@C13 MatchesStruct(source, target)
+//@   requires@C13 gen != nil && CallOK(ctx, sourceID, source, target)
+//@   ensures err == nil ==> result1 != nil && result1.Code != nil
+//@ func Struct.Assign(gen, ctx, assignTo, sourceID, source, target, errPath)
+//@   props C03
+//@   propagates
+//@   requires@C13 self != nil
+//@   requires@C13 GenInv(gen) && GenCtx(gen, ctx)
+//@   ensures@C13 GenInv(gen) && GenCtx(gen, ctx)
+//@   requires@C13 MatchesStruct(source, target)
+//@   requires@C13 gen != nil && CallOK(ctx, sourceID, source, target) && AssignOK(assignTo)
+
+//@ func List.Build(gen, ctx, sourceID, source, target, errPath)
+//@   props C03
+//@   propagates
+//@   requires@C13 self != nil
+//@   requires@C13 GenInv(gen) && GenCtx(gen, ctx)
+//@   ensures@C13 GenInv(gen) && GenCtx(gen, ctx)
+//@   requires@C13 MatchesList(source, target)
+//@   requires@C13 gen != nil && CallOK(ctx, sourceID, source, target)
+//@   ensures err == nil ==> result1 != nil && result1.Code != nil
+//@ func List.Assign(gen, ctx, assignTo, sourceID, source, target, errPath)
+//@   props C03
+//@   propagates
+//@   requires@C13 self != nil
+//@   requires@C13 GenInv(gen) && GenCtx(gen, ctx)
+//@   ensures@C13 GenInv(gen) && GenCtx(gen, ctx)
+//@   requires@C13 MatchesList(source, target)
+//@   requires@C13 gen != nil && CallOK(ctx, sourceID, source, target) && AssignOK(assignTo)
+
+//@ func Map.Build(gen, ctx, sourceID, source, target, errPath)
+//@   props C03
+//@   propagates
+//@   requires@C13 self != nil
+//@   requires@C13 GenInv(gen) && GenCtx(gen, ctx)
+//@   ensures@C13 GenInv(gen) && GenCtx(gen, ctx)
+//@   requires@C13 MatchesMap(source, target)
+//@   requires@C13 gen != nil && CallOK(ctx, sourceID, source, target)
+//@   ensures err == nil ==> result1 != nil && result1.Code != nil
+//@ func Map.Assign(gen, ctx, assignTo, sourceID, source, target, errPath)
+//@   props C03
+//@   propagates
+//@   requires@C13 self != nil
+//@   requires@C13 GenInv(gen) && GenCtx(gen, ctx)
+//@   ensures@C13 GenInv(gen) && GenCtx(gen, ctx)
+//@   requires@C13 MatchesMap(source, target)
+//@   requires@C13 gen != nil && CallOK(ctx, sourceID, source, target) && AssignOK(assignTo)
+
+// ---- C03/C05: a target field may only be skipped for a missing (never for an ambiguous) source ----
+//@ func mapField
+//@   props C03 C05
+//@   propagates
+//@   errignorable result4
+//@   requires@C13 gen != nil && CallOK(ctx, sourceID, source, target) && targetField != nil
+//@   ensures result4 ==> ctx.Conf.IgnoreMissing && err != nil
+//@   at call NewError#1 assert skip ==> ctx.Conf.IgnoreMissing && dynIs[*xtype.NoMatchError](err)
+
+//@ func parseAutoMap
+//@   props C03 C05
+//@   propagates
+//@   requires@C13 MethodOK(ctx) && source != nil
+
+//@ func MethodContext.Field
+//@   props C05
+//@   requires@C13 MethodOK(ctx) && target != nil
+//@   assigns nothing
+//@   ensures ctx.FieldsTarget != target.String ==> result == emptyMapping
+//@   ensures ctx.FieldsTarget == target.String && has(ctx.Conf.Fields, name) ==> result == ctx.Conf.Fields[name]
+//@   ensures ctx.FieldsTarget == target.String && !has(ctx.Conf.Fields, name) ==> result == emptyMapping
+
+//@ func MethodContext.DefinedFields
+//@   props C05 C09
+//@   requires@C13 MethodOK(ctx) && target != nil
+//@   assigns nothing
+//@   ensures result != nil
+//@   ensures ctx.FieldsTarget != target.String ==> (forall k string :: !has(result, k))
+//@   ensures ctx.FieldsTarget == target.String ==> (forall k string :: has(result, k) == has(ctx.Conf.Fields, k))
+//@   ensures ctx.FieldsTarget == target.String ==> isFresh(result)
+//@   loop 1 invariant forall k string :: has(f, k) == has(seen, k)
+//@   loop 1 invariant same(keys(ctx.Conf.Fields), old(keys(ctx.Conf.Fields))) && isFresh(f)
